@@ -132,6 +132,7 @@ def run(ctx):
     rng = ctx.rng
     for c in ctx.corpus():
         check_batch(ctx, rep, c['dir'], [c['msg']])
+    check_batch(ctx, rep, 'resp', msggen.devinfo_boundary(rng))
     total = ctx.scale(6000, 200000)
     done = 0
     while done < total and ctx.time_left() > 20:
